@@ -155,6 +155,7 @@ def build(reg):
         st.env["closed"] = V(INT, Add(st.env["closed"].t, IntVal(1)))
         return NoneV()
     m_end_scope.modifies = []
+    m_end_scope.modifies_names = ["closed"]
 
     reg.add(Contract(
         f"{PARSER}.FortranFile.parse_do_fixed_format", prop="C04", receiver_cls="FortranFile",
